@@ -43,6 +43,22 @@ func TestC13(t *testing.T) {
 			}})
 		}
 	}
+	// specs without a supported_versions extension whose minimum is above TLS 1.0: the
+	// advertised set is [minimum .. legacy_version], whatever a shared Config says later
+	for _, pn := range []string{"Chrome_58", "Firefox_55", "IOS_11_1"} {
+		p := ParrotByName(pn)
+		for _, minv := range []uint16{tls.VersionTLS11, tls.VersionTLS12} {
+			minv := minv
+			targets = append(targets, Target{Name: fmt.Sprintf("nosv:%s(min %04x)", pn, minv), Spec: func() (*tls.ClientHelloSpec, error) {
+				sp, err := tls.UTLSIdToSpec(p.ID)
+				if err != nil {
+					return nil, err
+				}
+				sp.TLSVersMin = minv
+				return &sp, nil
+			}})
+		}
+	}
 	type job struct {
 		t      Target
 		max    uint16
@@ -77,7 +93,7 @@ func TestC13(t *testing.T) {
 					if canary == 0 || legacy {
 						jobs = append(jobs, job{tg, max, legacy, canary, o, true, false})
 					}
-					if canary == 1 && !legacy && max == tls.VersionTLS12 && tg.ID.Client != tls.HelloGolang.Client {
+					if !legacy && (canary == 1 && max == tls.VersionTLS12 || strings.HasPrefix(tg.Name, "nosv:")) && tg.ID.Client != tls.HelloGolang.Client {
 						jobs = append(jobs, job{tg, max, legacy, canary, o, false, true})
 					}
 				}
